@@ -82,18 +82,19 @@ var (
 type hGen struct {
 	r *rng
 	// beliefs, used only to bias generation (the node's model is the authority)
-	pods    map[string]*corev1.Pod // "ns/name"
-	nps     map[string]*netv1.NetworkPolicy
-	anps    map[string]*apisv1a.AdminNetworkPolicy
-	nss     map[string]bool
-	banp    bool
-	prio    map[string]int32
-	ownerLb map[string]map[string]string // ns/owner -> labels shared by its pods
-	asked   []job.Step
-	steps   []job.Step
-	drift   bool
-	epoch   map[string]int // ns/owner -> port epoch (bumped by a re-port of the whole workload)
-	touched []string       // pods touched by the latest mutation: the next queries look there first
+	pods     map[string]*corev1.Pod // "ns/name"
+	nps      map[string]*netv1.NetworkPolicy
+	anps     map[string]*apisv1a.AdminNetworkPolicy
+	nss      map[string]bool
+	banp     bool
+	prio     map[string]int32
+	prioPool []int                        // unused priorities, for names that come back with another one
+	ownerLb  map[string]map[string]string // ns/owner -> labels shared by its pods
+	asked    []job.Step
+	steps    []job.Step
+	drift    bool
+	epoch    map[string]int // ns/owner -> port epoch (bumped by a re-port of the whole workload)
+	touched  []string       // pods touched by the latest mutation: the next queries look there first
 	// swarm knobs of this history
 	nsN, podN       int   // size of the universe
 	tcpOnly         bool  // queries and rules stick to TCP
@@ -359,6 +360,14 @@ func (g *hGen) anpPorts() *[]apisv1a.AdminNetworkPolicyPort {
 	if r.chance(1, 2) {
 		return nil
 	}
+	if g.named > 0 && r.chance(1, 4) {
+		// a port given by name: resolved per destination pod, ignored (with a warning) where the pod has no such port
+		n := pick(r, []string{"http", "http", "dns"})
+		if r.chance(1, 3) {
+			return &[]apisv1a.AdminNetworkPolicyPort{{NamedPort: &n}, {PortNumber: &apisv1a.Port{Protocol: corev1.Protocol(pick(r, hProtos)), Port: pick(r, []int32{80, 8080, 53, 443})}}}
+		}
+		return &[]apisv1a.AdminNetworkPolicyPort{{NamedPort: &n}}
+	}
 	if r.chance(1, 2) {
 		return &[]apisv1a.AdminNetworkPolicyPort{{PortRange: &apisv1a.PortRange{Protocol: corev1.Protocol(pick(r, hProtos)), Start: 53, End: 443}}}
 	}
@@ -573,6 +582,11 @@ func (g *hGen) mutate() {
 		}
 		delete(g.anps, name)
 		g.add(delOp(), g.obj("AdminNetworkPolicy", a))
+		if len(g.prioPool) > 0 && r.chance(1, 2) {
+			// the name comes back with another priority (never one that any other name has or had):
+			// its place among the others moves
+			g.prio[name], g.prioPool = int32(g.prioPool[0]), g.prioPool[1:]
+		}
 	case 8:
 		g.banp = true
 		g.add("insert", g.obj("BaselineAdminNetworkPolicy", g.mkBANP("default")))
@@ -861,6 +875,7 @@ func genHistory(r *rng, n int) *history {
 	for i := 0; i < 8; i++ {
 		g.prio[fmt.Sprintf("anp%d", i)] = int32(pr[i])
 	}
+	g.prioPool = pr[8:72]
 	g.anpN = 5
 	// most histories start from a populated world, some from nothing
 	if r.chance(5, 6) {
